@@ -480,6 +480,22 @@ def check_hashcase(case, ctx):
 # ------------------------------------------------------------------------------------------------
 # clause 5b: interleavings at COLD START (each schedule in a fresh interpreter)
 # ------------------------------------------------------------------------------------------------
+def probe_jobs(cfg):
+    """Fixed valid calls covering every total player count 2..16 and every team count 2..8 (default-rated players, distinct mu)."""
+    jobs = []
+    for total in range(2, 17):
+        n = min(total, 8) if total % 2 else 2
+        sizes = [total // n + (1 if i < total % n else 0) for i in range(n)]
+        teams = [[[cfg["mu"] + 0.1 * cfg["beta"] * (i - j), cfg["sigma"]] for j in range(k)] for i, k in enumerate(sizes)]
+        for op in ("predict_draw", "predict_rank", "predict_win"):
+            jobs.append({"op": op, "teams": teams})
+    for n in range(3, 9):
+        teams = [[[cfg["mu"] + 0.2 * cfg["beta"] * i, cfg["sigma"]]] for i in range(n)]
+        jobs.append({"op": "rate", "teams": teams, "call": {"ranks": [i // 2 for i in range(n)]}})
+        jobs.append({"op": "predict_rank", "teams": teams})
+    return jobs
+
+
 def run_cold(case, tag):
     cfg, jobs = case["cfg"], case["jobs"]
     expected = []
@@ -512,6 +528,12 @@ def run_cold(case, tag):
     if p.returncode != 0:
         raise HarnessError(f"cold-start child failed: {p.stderr[-2000:]}")
     out = json.loads(p.stdout)
+    for job, got in zip(probe_jobs(cfg), out.get("probes", [])):
+        want = guarded_job(mk_model(cfg), job, "probe (sequential)")
+        if got != want:
+            raise Violation(f"cold-start:probe-after-interleaving:{job['op']}",
+                            f"{cfg['kind']}: after the interleaved first calls of a fresh process (schedule {out['trace']}), {job['op']} on {len(job['teams'])} teams / "
+                            f"{sum(len(t) for t in job['teams'])} players returns {got!r}, sequentially {want!r}"[:1200])
     for i, (r, e, x) in enumerate(zip(out["results"], out["errors"], expected)):
         if e is not None:
             raise Violation("cold-start:raised", f"{cfg['kind']} job {i} {jobs[i]['op']} raised {e} in a fresh process under schedule {out['trace']}")
